@@ -23,7 +23,7 @@ Proof.
 Qed.
 
 (* ---- D13 ---- *)
-Definition d13_state (thr : bool) : idstate := i_drun w_cfg thr w_init w_d13_prefix.
+Notation d13_state thr := (i_drun w_cfg thr w_init w_d13_prefix).
 
 Lemma d13_state_facts thr :
   cur (d13_state thr) = CConnected /\ d_status (d13_state thr) = Running /\
@@ -51,13 +51,17 @@ Qed.
 (* the stop request is never honoured: whatever the number of further healthy iterations, the client is
    Connected, desires Stopped, has emitted no Stopped event and has written nothing but the CONNECT *)
 Theorem stop_stops_refuted : forall thr n,
-  let s := i_drun w_cfg thr w_init (w_d13_prefix ++ w_idle n) in
-  cur s = CConnected /\ d_status s = Running /\ c_des (d_c s) = CStopped /\
-  count_stopped (d_log s) = 0%nat /\ d_log s = [EvAttempt; EvSuccess] /\
-  d_wire s = [16; 15; 0; 4; 77; 81; 84; 84; 5; 2; 0; 0; 0; 0; 2; 97; 97].
+  cur (i_drun w_cfg thr w_init (w_d13_prefix ++ w_idle n)) = CConnected /\
+  d_status (i_drun w_cfg thr w_init (w_d13_prefix ++ w_idle n)) = Running /\
+  c_des (d_c (i_drun w_cfg thr w_init (w_d13_prefix ++ w_idle n))) = CStopped /\
+  count_stopped (d_log (i_drun w_cfg thr w_init (w_d13_prefix ++ w_idle n))) = 0%nat /\
+  d_log (i_drun w_cfg thr w_init (w_d13_prefix ++ w_idle n)) = [EvAttempt; EvSuccess] /\
+  d_wire (i_drun w_cfg thr w_init (w_d13_prefix ++ w_idle n)) = [16; 15; 0; 4; 77; 81; 84; 84; 5; 2; 0; 0; 0; 0; 2; 97; 97].
 Proof.
-  intros thr n s. subst s. rewrite i_drun_app. fold (d13_state thr). rewrite d13_forever.
-  destruct (d13_state_facts thr) as (A & B & C & _ & _ & F & G). rewrite F. repeat split; auto.
+  intros thr n. rewrite i_drun_app.
+  rewrite d13_forever.
+  destruct (d13_state_facts thr) as (A & B & C & _ & _ & F & G). rewrite F.
+  split; [exact A|]. split; [exact B|]. split; [exact C|]. split; [reflexivity|]. split; [reflexivity|exact G].
 Qed.
 
 (* ---- D10b: connect_timeout = Duration::MAX ---- *)
